@@ -5,7 +5,7 @@ CONSTANTS
   MaxInp = 8
   MaxWrite = 3
   EmitOps = TRUE
-  Backward = FALSE
+  Backward = TRUE
 INVARIANT Inv
 PROPERTY Refines
 ACTION_CONSTRAINT Emit
